@@ -319,10 +319,15 @@ func queryFace(face *font.Face, ld *ot.Loader, r *runner) {
 		}
 		it := ft.Cmap.Iter()
 		var seen []rune
-		for k := 0; k < maxCmapIter && it.Next(); k++ {
+		// the whole cmap is iterated (a consumer such as a coverage builder does): only the first
+		// entries are kept for the strings. A cmap of a loaded font can yield at most one entry per
+		// segment / group member; an iteration that does not end is caught by the watchdog.
+		for k := 0; it.Next(); k++ {
 			ch, g := it.Char()
 			sink += int(g)
-			seen = append(seen, ch)
+			if k < maxCmapIter {
+				seen = append(seen, ch)
+			}
 		}
 		for _, ch := range seen {
 			if ch > 0x20 && len(first) < 8 {
@@ -588,6 +593,33 @@ func queryFace(face *font.Face, ld *ot.Loader, r *runner) {
 				}
 			}
 		}
+	})
+	// --- shaping and metrics with a pixel size set on the face (device tables of GPOS / GDEF are
+	// only consulted then): both directions, default features
+	r.do("harfbuzz.Shape@ppem", func() {
+		hf := harfbuzz.NewFont(face) // reads the pixel size of the face when it shapes
+		for pi, pp := range []uint16{12, 1, 0xFFFF} {
+			face.SetPpem(pp, pp)
+			for k, text := range [][]rune{first, spread} {
+				if len(text) == 0 || k == 1 && pi > 0 { // both directions at 12, one string at the extremes
+					continue
+				}
+				buf := harfbuzz.NewBuffer()
+				buf.AddRunes(text, 0, -1)
+				buf.GuessSegmentProperties()
+				if k == 1 {
+					buf.Props.Direction = harfbuzz.RightToLeft
+				}
+				buf.Shape(hf, nil)
+				sink += len(buf.Info)
+			}
+			for _, g := range glyphs[:4] {
+				sink += int(face.HorizontalAdvance(g)) + len(hf.GetOTLigatureCarets(harfbuzz.LeftToRight, g)) + len(hf.GetOTLigatureCarets(harfbuzz.TopToBottom, g))
+				e, _ := face.GlyphExtents(g)
+				sink += int(e.Width)
+			}
+		}
+		face.SetPpem(0, 0)
 	})
 	r.do("shaping.Shape", func() {
 		var sh shaping.HarfbuzzShaper
